@@ -400,6 +400,43 @@ impl SmartCalc {
     }
 }
 
+/* Verification hooks: read-only observers used by the external verification harness. */
+#[cfg(feature = "verif-hooks")]
+impl SmartCalc {
+    /// Tokens of a single line after the language, regex and alias tokenizers (before any rewrite).
+    pub fn verif_lex(&self, language: &str, line: &str) -> Vec<Rc<TokenInfo>> {
+        let mut session = Session::new();
+        session.set_language(language.to_string());
+        session.set_text(line.to_string());
+        Tokinizer::token_infos(&self.config, &session)
+    }
+
+    /// Debug dump of every configured pattern token (rule, unit and date patterns) including
+    /// the interior-mutable cells, and of the mutable configuration scalars.
+    pub fn verif_fingerprint(&self) -> String {
+        let mut buffer = String::new();
+        for (language, rules) in self.config.rule.iter() {
+            for rule in rules.iter() {
+                let (name, tokens_list) = match rule {
+                    RuleType::Internal { function_name, tokens_list, .. } => (function_name.to_string(), tokens_list),
+                    RuleType::API { tokens_list, rule } => (alloc::format!("api:{}", rule.name()), tokens_list)
+                };
+                buffer.push_str(&alloc::format!("rule {} {} {:?}\n", language, name, tokens_list));
+            }
+        }
+        for (name, items) in self.config.types.iter() {
+            for (index, item) in items.iter() {
+                buffer.push_str(&alloc::format!("type {} {} {:?}\n", name, index, item));
+            }
+        }
+        for (currency, rate) in self.config.currency_rate.iter() {
+            buffer.push_str(&alloc::format!("rate {} {:?}\n", currency.code, rate.to_bits()));
+        }
+        buffer.push_str(&alloc::format!("cfg {:?} {:?} {:?} {:?} {:?} {:?} {:?}\n", self.config.decimal_seperator, self.config.thousand_separator, self.config.timezone, self.config.timezone_offset, self.config.number_config, self.config.percentage_config, self.config.money_config));
+        buffer
+    }
+}
+
 #[cfg(test)]
 mod test {
     use core::ops::Deref;
